@@ -637,7 +637,7 @@ func vC19WireECS(r *rand.Rand, b vC19BuildArgs) []byte {
 	data := []byte{0, byte(fam), byte(mask), 0}
 	data = append(data, a[:n]...)
 	switch r.Intn(25) {
-	case 0:
+	case 0, 2, 3: // the opt-out form: family 0, source 0, no address
 		data[1] = 0
 		data[2] = 0
 		data = data[:4]
